@@ -12,6 +12,8 @@ use std::path::PathBuf;
 
 pub struct FileStack {
     current_location: Option<PathBuf>,
+    /// The directories which have been searched for input files.
+    visited_directories: HashSet<PathBuf>,
     black_paths: HashSet<PathBuf>,
     user_inputs: HashSet<PathBuf>,
     libraries: Vec<Library>,
@@ -28,6 +30,7 @@ impl FileStack {
     pub fn new(paths: &[PathBuf], libs: &[PathBuf], reports: &mut ReportCollection) -> FileStack {
         let mut result = FileStack {
             current_location: None,
+            visited_directories: HashSet::new(),
             black_paths: HashSet::new(),
             user_inputs: HashSet::new(),
             libraries: Vec::new(),
@@ -74,6 +77,13 @@ impl FileStack {
                 continue;
             }
             if path.is_dir() {
+                // A directory is searched once. (A symbolic link may lead back into a directory
+                // which is being searched.)
+                if let Ok(directory) = fs::canonicalize(path) {
+                    if !self.visited_directories.insert(directory) {
+                        continue;
+                    }
+                }
                 match fs::read_dir(path) {
                     Ok(entries) => {
                         let paths: Vec<_> = entries.flatten().map(|x| x.path()).collect();
